@@ -72,11 +72,23 @@ def gen_pack13(rng, world):
     pk = {
         "initial": [{"t": "RemoveFront", "mask": None, "lazy": rng.random() < 0.2}],
         "inferral": [],
-        "expansion": [[{"t": "Expand", "d": rng.choice([1, 1, 2]), "mask": None, "lazy": rng.random() < 0.2}]],
+        "expansion": rng.choice(
+            [
+                [[{"t": "Expand", "d": 1, "mask": None, "lazy": False}]],
+                [[{"t": "Expand", "d": 2, "mask": None, "lazy": rng.random() < 0.2}]],
+                [[{"t": "Expand", "d": 1, "mask": None, "lazy": False}], [{"t": "Expand", "d": 2, "mask": None, "lazy": False}]],
+                [[{"t": "Expand", "d": 1, "mask": None, "lazy": False}, {"t": "Expand", "d": 2, "mask": None, "lazy": False}]],
+                [[{"t": "Expand", "d": 2, "mask": None, "lazy": False}, {"t": "Expand", "d": 1, "mask": None, "lazy": False}]],
+            ]
+        ),
         "ver": [{"t": "WordAtom"}] if world["tracked"] or rng.random() < 0.5 else [{"t": "AtomStrategy"}],
         "symmetries": [],
         "iterative": False,
     }
+    if not world["patterns"] and rng.random() < 0.6:
+        pk["initial"].append({"t": "SplitZeros"})
+    if rng.random() < 0.3:
+        pk["initial"][0]["split"] = True
     if rng.random() < 0.5:
         pk["inferral"].append({"t": "ReducePatterns", "two_way": rng.random() < 0.75, "lazy": rng.random() < 0.2})
     if world["tracked"] and rng.random() < 0.4:
